@@ -20,6 +20,7 @@ def run(chk):
     r16b(chk)
     r16c(chk)
     r16d(chk)
+    r16e(chk)
 
 
 def r16a(chk, rid='R16.a'):
@@ -188,6 +189,10 @@ def r16d(chk, rid='R16.d'):
     chk.ob(rid, SELLIST, 'SelectorList.appendSelector', 'appends the new selector', bool(app), 'no append')
     dedupe = 'selectorText' in src and ('!=' in src or 'not in' in src or '==' in src)
     chk.ob(rid, SELLIST, 'SelectorList.appendSelector', 'removes an equal selector (compared by selectorText) first', dedupe, 'duplicates would accumulate')
+    loops = [n for n in ast.walk(fn) if isinstance(n, ast.For) and 'selectorText' in ast.unparse(n)]
+    full = bool(loops) and not any(isinstance(x, ast.Break) for l in loops for x in ast.walk(l))
+    chk.ob(rid, SELLIST, 'SelectorList.appendSelector', 'every member is compared (the scan does not stop at the first equal one)', full,
+           'a list that already holds the selector twice keeps one copy: appending does not restore the set property')
     fn2 = chk.repo.fn(SELLIST, 'SelectorList._setSelectorText')
     bad = [n for n in ast.walk(fn2) if isinstance(n, ast.If) and 'selector.wellformed' in text(n.test)]
     ok = bool(bad) and any(isinstance(x, ast.Assign) and text(x.targets[0]) == 'wellformed' and const(x.value) is False for b in bad for x in ast.walk(ast.Module(body=b.orelse, type_ignores=[])))
@@ -201,3 +206,36 @@ def r16d(chk, rid='R16.d'):
         i = blk.index(st)
         ok = i + 1 < len(blk) and isinstance(blk[i + 1], ast.Return) and any(isinstance(x, ast.Assign) and text(x.targets[0]) == 'self.wellformed' and const(x.value) is False for x in blk[:i])
         chk.ob(rid, SEL, 'New.append', 'the item is not appended and the selector becomes ill-formed', ok, 'the unresolved name would be stored')
+
+
+def r16e(chk, rid='R16.e'):
+    chk.rule(rid, 'append before push: New.append counts an item according to the context on top of the stack, so a handler that appends a counted item (a pseudo-element, or the "[" of an attribute selector) and opens a nested context for it must append first and push afterwards')
+    m = chk.repo.mod(SEL)
+    n = 0
+    for q, fn in m.functions():
+        if not q.startswith('New._'):
+            continue
+        for blk_owner in ast.walk(fn):
+            for field in ('body', 'orelse'):
+                blk = getattr(blk_owner, field, None)
+                if not isinstance(blk, list):
+                    continue
+                pushes = [i for i, s in enumerate(blk) if isinstance(s, ast.Expr) and isinstance(s.value, ast.Call) and text(s.value.func) == 'self.context.append']
+                if not pushes:
+                    # the push may be nested one level deeper (if val.endswith('('): push)
+                    pushes = [i for i, s in enumerate(blk) if isinstance(s, ast.If) and any(isinstance(x, ast.Call) and text(x.func) == 'self.context.append' for x in ast.walk(s))]
+                apps = [i for i, s in enumerate(blk) if isinstance(s, ast.Expr) and isinstance(s.value, ast.Call) and text(s.value.func) == 'self.append' and len(s.value.args) >= 3]
+                if not pushes or not apps:
+                    continue
+                for ai in apps:
+                    call = blk[ai].value
+                    typ = call.args[2]
+                    counted = not isinstance(typ, ast.Constant) or typ.value in ('id', 'class', 'type-selector', 'negation-type-selector', 'pseudo-element', 'attribute-start')
+                    if not counted:
+                        continue
+                    n += 1
+                    ok = ai < min(pushes)
+                    chk.ob(rid, SEL, q, f'`{text(call)[:60]}` precedes the context push', ok,
+                           'the item is appended when its own nested context is already on top of the stack: it is not counted in the specificity (a::part(x) reports one type selector too few)')
+    if n < 2:
+        raise AnalysisError(f'only {n} append+push handlers found (2 confirmed by hand: _pseudo, _char "[")')
